@@ -318,8 +318,6 @@ package node
 // the only one to call unregisterProcess and ProcessTerminate.
 //@ iface gen.ProcessBehavior.ProcessRun
 //@ iface gen.ProcessBehavior.ProcessTerminate
-//@ func (n *node) unregisterProcess
-//@   trusted
 //@ func (l *log) Panic
 //@   trusted
 //@ func runtime.Caller
@@ -378,6 +376,8 @@ package node
 //@ func (n *node) Kill
 //@   props C01 C05
 //@   protocol procState at p
+//@   modifies killAsked(pid)
+//@   ensures_ghost killAsked(pid) == old(killAsked(pid)) + 1
 //@   requires [tables] processesWF(n)
 //@   at call unregisterProcess assert [finaliser_only] fin(p) == me && owner(p) == 0
 //@   at atomic 1 ghost zs = (result == 2 ? me : zs(p))
@@ -606,3 +606,150 @@ package node
 //@   ensures [no_exit_for_others] result == nil ==> forall p gen.PID :: (forall i int :: 0 <= i && i < len(lastLinks()) ==> lastLinks()[i] != p) ==> exitSent(p) == old(exitSent(p))
 //@   ensures [one_down_per_monitor_consumer] result == nil ==> forall p gen.PID, i int :: 0 <= i && i < len(lastMonitors()) && lastMonitors()[i] == p ==> routed(p) == old(routed(p)) + 1
 //@   ensures [no_down_for_others] result == nil ==> forall p gen.PID :: (forall i int :: 0 <= i && i < len(lastMonitors()) ==> lastMonitors()[i] != p) ==> routed(p) == old(routed(p))
+
+// ---------------------------------------------------------------------------------------------
+// C17: application lifecycle. States: Loaded 1, Running 2, Stopping 3. Modes: Temporary 1,
+// Transient 2, Permanent 3. Ghost counters: spawnSeq() spawn calls made through node.spawn,
+// killAsked(pid)/exitAsked(pid) Kill/SendExit requests for pid, appStartCb/appTermCb calls of the
+// application behaviour's Start/Terminate callbacks (A-USER: the callbacks themselves are user code).
+
+//@ ghostheap spawnSeq() int
+//@ ghostheap killAsked(p gen.PID) int
+//@ ghostheap exitAsked(p gen.PID) int
+//@ ghostheap appStartCb(b gen.ApplicationBehavior) int
+//@ ghostheap appTermCb(b gen.ApplicationBehavior) int
+//@ ghostheap lastTermReason(b gen.ApplicationBehavior) error
+
+//@ iface gen.ApplicationBehavior.Start
+//@   modifies appStartCb(self)
+//@   ensures appStartCb(self) == old(appStartCb(self)) + 1
+//@ iface gen.ApplicationBehavior.Terminate
+//@   modifies appTermCb(self), lastTermReason(self)
+//@   ensures appTermCb(self) == old(appTermCb(self)) + 1 && lastTermReason(self) == reason
+
+//@ func (n *node) SendExit
+//@   trusted
+//@   modifies exitAsked(pid)
+//@   ensures exitAsked(pid) == old(exitAsked(pid)) + 1
+
+//@ func (l *log) Info
+//@   trusted
+//@ func (n *node) Log
+//@   trusted
+//@ func (n *node) Network
+//@   trusted
+//@ iface gen.Network.Mode
+//@ iface gen.Log.Info
+//@ func (a *application) registerAppRoute
+//@   trusted
+//@ func time.After
+//@   trusted
+
+//@ spec func isMember(a *application, pid gen.PID) bool = has(a.group.m, pid)
+
+//@ func (a *application) terminate
+//@   props C17
+//@   mode int
+//@   requires [wired] a.node != nil && a.node.log != nil && a.behavior != nil
+//@   modifies a.state, a.reason, a.started, a.parent
+//@   at range 1 invariant [permanent_exit_seen] forall k gen.PID :: exitAsked(k) == old(exitAsked(k)) + (rseen(1, k) ? 1 : 0)
+//@   at range 2 invariant [transient_exit_seen] forall k gen.PID :: exitAsked(k) == old(exitAsked(k)) + (rseen(2, k) ? 1 : 0)
+//@   at call Terminate assert [callback_after_last_member_with_the_recorded_reason] len(a.group.m) == 0 && a.state == 1 && reason == a.reason && reason != nil
+//@   ensures [not_a_member_is_ignored] !old(isMember(a, pid)) ==> a.state == old(a.state) && a.reason == old(a.reason) && appTermCb(a.behavior) == old(appTermCb(a.behavior)) && (forall k gen.PID :: exitAsked(k) == old(exitAsked(k)))
+//@   ensures [member_removed] !isMember(a, pid) && (forall k gen.PID :: k != pid ==> isMember(a, k) == old(isMember(a, k)))
+//@   ensures [permanent_any_termination_stops] old(isMember(a, pid)) && old(a.mode) == 3 && old(a.state) == 2 && reason != nil ==> (a.state == 3 || a.state == 1) && a.reason == reason && (forall k gen.PID :: isMember(a, k) ==> exitAsked(k) == old(exitAsked(k)) + 1)
+//@   ensures [transient_abnormal_termination_stops] old(isMember(a, pid)) && old(a.mode) == 2 && old(a.state) == 2 && reason != nil && reason != gen.TerminateReasonNormal && reason != gen.TerminateReasonShutdown ==> (a.state == 3 || a.state == 1) && a.reason == reason && (forall k gen.PID :: isMember(a, k) ==> exitAsked(k) == old(exitAsked(k)) + 1)
+//@   ensures [transient_normal_termination_keeps_running] old(isMember(a, pid)) && old(a.mode) == 2 && (reason == gen.TerminateReasonNormal || reason == gen.TerminateReasonShutdown) && len(a.group.m) > 0 ==> a.state == old(a.state) && (forall k gen.PID :: exitAsked(k) == old(exitAsked(k)))
+//@   ensures [temporary_keeps_running_until_last_member] old(isMember(a, pid)) && old(a.mode) == 1 && len(a.group.m) > 0 ==> a.state == old(a.state) && (forall k gen.PID :: exitAsked(k) == old(exitAsked(k)))
+//@   ensures [members_left_no_callback] len(a.group.m) > 0 ==> appTermCb(a.behavior) == old(appTermCb(a.behavior)) && (a.state == 1 ==> old(a.state) == 1)
+//@   ensures [last_member_gone_unloads_and_calls_back_once] old(isMember(a, pid)) && len(a.group.m) == 0 && old(a.state) != 1 ==> a.state == 1 && appTermCb(a.behavior) == old(appTermCb(a.behavior)) + 1 && lastTermReason(a.behavior) == a.reason && a.reason != nil
+//@   ensures [stop_is_signalled_once_unloaded] old(a.stopped) != nil && closedcount(old(a.stopped)) != old(closedcount(a.stopped)) ==> a.state == 1 && len(a.group.m) == 0 && closedcount(old(a.stopped)) == old(closedcount(a.stopped)) + 1
+//@   ensures [already_loaded_no_second_callback] old(a.state) == 1 && old(a.mode) == 1 ==> appTermCb(a.behavior) == old(appTermCb(a.behavior))
+
+// node.spawn (C04/C06 contracts of its body are separate): for the application it is a source of
+// new pids; the process table stays well-formed (A-SPAWN).
+//@ func (n *node) spawn
+//@   trusted
+//@   modifies spawnSeq(), smHas, smVal
+//@   ensures spawnSeq() == old(spawnSeq()) + 1 && processesWF(n)
+
+//@ func (time.Time).Unix
+//@   trusted
+//@   pure
+
+// start: only from Loaded (CAS gate); members are spawned one per spec item, in spec order, each
+// registered under the item's name and tagged with the application; a failed spawn kills every
+// member started so far, returns the word to Loaded and never reaches the Start callback; success
+// runs the Start callback exactly once, after the last member was spawned, with the requested mode.
+//@ func (a *application) start
+//@   props C17
+//@   mode int
+//@   requires [wired] a.node != nil && a.node.log != nil && a.behavior != nil && processesWF(a.node)
+//@   loop 4 invariant [idx] -1 <= rangeindex && rangeindex < len(a.spec.Group) && processesWF(a.node) && a.state == 2
+//@   loop 4 invariant [one_spawn_per_item_so_far] spawnSeq() == old(spawnSeq()) + rangeindex + 1
+//@   loop 4 invariant [no_callback_yet] appStartCb(a.behavior) == old(appStartCb(a.behavior))
+//@   at call spawn assert [members_in_spec_order] spawnSeq() - old(spawnSeq()) >= 0 && spawnSeq() - old(spawnSeq()) < len(a.spec.Group) && factory == a.spec.Group[spawnSeq() - old(spawnSeq())].Factory && options.Register == a.spec.Group[spawnSeq() - old(spawnSeq())].Name && options.Application == a.spec.Name
+//@   at call spawn assert [new_life_is_set_up_before_members_run] a.mode == caller_mode && a.reason == nil && a.stopped != nil && fresh(a.stopped)
+//@   at range 1 invariant [kill_seen] forall k gen.PID :: killAsked(k) == old(killAsked(k)) + (rseen(1, k) ? 1 : 0)
+//@   at range 1 invariant [tables] processesWF(a.node)
+//@   at call Start assert [callback_after_all_members_with_requested_mode] spawnSeq() == old(spawnSeq()) + len(a.spec.Group) && arg0 == caller_mode
+//@   ensures [gate_running] old(a.state) == 2 ==> result == gen.ErrApplicationRunning
+//@   ensures [gate_other] old(a.state) != 1 && old(a.state) != 2 ==> result == gen.ErrApplicationState
+//@   ensures [refused_start_does_nothing] old(a.state) != 1 ==> spawnSeq() == old(spawnSeq()) && appStartCb(a.behavior) == old(appStartCb(a.behavior)) && a.state == old(a.state)
+//@   ensures [failed_start_kills_started_members_and_unloads] old(a.state) == 1 && result != nil ==> a.state == 1 && appStartCb(a.behavior) == old(appStartCb(a.behavior)) && (forall k gen.PID :: isMember(a, k) ==> killAsked(k) == old(killAsked(k)) + 1)
+//@   ensures [started_all_members_one_callback] result == nil ==> old(a.state) == 1 && spawnSeq() == old(spawnSeq()) + len(a.spec.Group) && appStartCb(a.behavior) == old(appStartCb(a.behavior)) + 1 && a.mode == mode && a.reason == nil && fresh(a.stopped)
+
+// stop: reports success only if the application was already unloaded or the stop signal (closed by
+// terminate() once the last member is gone and the word is back to Loaded) was received; every
+// member is asked to exit (killed when forced); the mode is lowered to Temporary so that the
+// members' terminations do not trigger the Permanent/Transient rule again.
+//@ func (a *application) stop
+//@   props C17 C10
+//@   mode int
+//@   requires [wired] a.node != nil && a.node.log != nil && processesWF(a.node)
+//@   at range 1 invariant [asked_seen] forall k gen.PID :: exitAsked(k) == old(exitAsked(k)) + (!force && rseen(1, k) ? 1 : 0)
+//@   at range 1 invariant [killed_seen] forall k gen.PID :: killAsked(k) == old(killAsked(k)) + (force && rseen(1, k) ? 1 : 0)
+//@   at range 1 invariant [tables] processesWF(a.node)
+//@   ensures [success_only_when_unloaded_or_signalled] result == nil ==> old(a.state) == 1 || recvcount(a.stopped) == old(recvcount(a.stopped)) + 1
+//@   ensures [already_unloaded_is_success_without_effect] old(a.state) == 1 ==> result == nil && (forall k gen.PID :: exitAsked(k) == old(exitAsked(k)) && killAsked(k) == old(killAsked(k)))
+//@   ensures [busy_or_bad_state_is_refused_without_effect] !force && old(a.state) != 1 && old(a.state) != 2 ==> result != nil && (old(a.state) == 3 ==> result == gen.ErrApplicationStopping) && a.mode == old(a.mode) && (forall k gen.PID :: exitAsked(k) == old(exitAsked(k)) && killAsked(k) == old(killAsked(k)))
+//@   ensures [graceful_stop_asks_every_member_to_exit] !force && old(a.state) == 2 ==> (forall k gen.PID :: isMember(a, k) ==> exitAsked(k) == old(exitAsked(k)) + 1) && a.mode == 1 && a.reason == gen.TerminateReasonShutdown
+//@   ensures [forced_stop_kills_every_member] force && old(a.state) != 1 ==> (forall k gen.PID :: isMember(a, k) ==> killAsked(k) == old(killAsked(k)) + 1) && a.mode == 1 && a.reason == gen.TerminateReasonKill
+//@   ensures [timeout_is_reported] result != nil && old(a.state) == 2 ==> result == gen.ErrApplicationStopping
+
+// ---------------------------------------------------------------------------------------------
+// C06 / C04 / C17: what the finaliser does for a terminated process. After it, the process is in no
+// table: pid, registered name, aliases, events; every kind of target it owned is announced as gone
+// with the termination reason; its relations as requester are dropped; the application it was a
+// member of is told, with the reason.
+//@ ghostheap consumerCleaned(p gen.PID) int
+//@ ghostheap appNotified(a *application, p gen.PID) int
+//@ iface gen.TargetManager.CleanupConsumer
+//@   modifies consumerCleaned(consumer)
+//@   ensures consumerCleaned(consumer) == old(consumerCleaned(consumer)) + 1
+
+//@ spec func tablesWF(n *node) bool = processesWF(n) && namesWF(n) && (forall k any :: smHas(n.processes, k) ==> mailboxWF(smVal(n.processes, k).(*process)))
+//@ spec func applicationsWF(n *node) bool = forall k any :: smHas(n.applications, k) ==> typeis(smVal(n.applications, k), *application) && smVal(n.applications, k).(*application) != nil && smVal(n.applications, k).(*application).node != nil && smVal(n.applications, k).(*application).node.log != nil && smVal(n.applications, k).(*application).behavior != nil
+//@ spec func ownEventsWF(p *process) bool = forall k any :: smHas(p.events, k) ==> typeis(k, gen.Atom)
+//@ spec func ownMetasWF(p *process) bool = forall k any :: smHas(p.metas, k) ==> typeis(smVal(p.metas, k), *meta) && smVal(p.metas, k).(*meta) != nil && smVal(p.metas, k).(*meta).system != nil
+
+//@ func (n *node) LoggerDelete
+//@   trusted
+//@ func (l *log) SetLevel
+//@   trusted
+
+//@ func (n *node) unregisterProcess
+//@   props C06 C04 C17
+//@   mode int
+//@   requires [tables] p != nil && p.node == n && n.log != nil && p.log != nil && n.targetManager != nil && tablesWF(n) && applicationsWF(n) && ownEventsWF(p) && ownMetasWF(p)
+//@   at call RouteTerminatePID assert [pid_announced_gone_with_the_reason] target == p.pid && reason == caller_reason
+//@   at call RouteTerminateProcessID assert [name_announced_gone_with_the_reason] target.Name == p.name && target.Node == n.name && reason == caller_reason
+//@   at call RouteTerminateAlias assert [alias_announced_gone_with_the_reason] reason == caller_reason
+//@   at call terminate assert [member_termination_reported_to_its_application] pid == p.pid && reason == caller_reason
+//@   loop 1 invariant [idx] -1 <= rangeindex && rangeindex < len(p.aliases) && tablesWF(n) && applicationsWF(n) && ownEventsWF(p) && ownMetasWF(p)
+//@   loop 1 invariant [aliases_so_far] forall j int :: 0 <= j && j <= rangeindex ==> !smHas(n.aliases, any(p.aliases[j]))
+//@   loop 1 invariant [kept] !smHas(n.processes, any(p.pid)) && (abVal(p.registered) ==> !smHas(n.names, any(p.name))) && consumerCleaned(p.pid) == old(consumerCleaned(p.pid)) + 1
+//@   ensures [gone_from_process_table] !smHas(n.processes, any(p.pid))
+//@   ensures [name_released] abVal(p.registered) ==> !smHas(n.names, any(p.name))
+//@   ensures [aliases_released] forall j int :: 0 <= j && j < len(p.aliases) ==> !smHas(n.aliases, any(p.aliases[j]))
+//@   ensures [no_relation_left_as_requester] consumerCleaned(p.pid) == old(consumerCleaned(p.pid)) + 1
